@@ -27,7 +27,7 @@ pub fn plan(p: &EpParams) -> Plan {
     Plan {
         episodes: n,
         exhaustive: false,
-        rule: "burst episodes: 17-60 simultaneous calls (Ack/Modify/PullRI/GetSub/blocking Pull/ListTopicSubs) on one subscription and its topic, with Publish x1-3, optional DeleteSubscription (one to three crossing deletes of the same subscription) / DeleteTopic / CreateSubscription / stream control messages; seeded yields at every mailbox site. Non-trivial: a mailbox was observed full (hook counter) and >=17 calls were in flight. Distinct: multiset of in-flight call kinds x which mailboxes saturated x outcome classes.".into(),
+        rule: "burst episodes: 17-60 simultaneous calls (Ack/Modify/PullRI/GetSub/blocking Pull/ListTopicSubs) on one subscription and its topic, with Publish x1-3, optional DeleteSubscription (one to three crossing deletes of the same subscription, or one abandoned by its client after 0-3 scheduler turns) / DeleteTopic / CreateSubscription / stream control messages; seeded yields at every mailbox site. Non-trivial: a mailbox was observed full (hook counter) and >=17 calls were in flight. Distinct: multiset of in-flight call kinds x which mailboxes saturated x outcome classes.".into(),
     }
 }
 
@@ -95,6 +95,11 @@ async fn episode(p: &EpParams, mt: bool) -> EpReport {
             }
         }
     }
+    // a DeleteSubscription whose client goes away after a few scheduler turns (possibly while it
+    // waits for room in the full mailbox): later deletes of that subscription must still be answered
+    if rng.chance(1, 4) {
+        specials.push("DeleteSubAbandoned");
+    }
     if with_delete_topic {
         specials.push("DeleteTopic");
     }
@@ -124,7 +129,7 @@ async fn episode(p: &EpParams, mt: bool) -> EpReport {
         // Ack IDs are scoped per subscription: ack/modify calls carry the target's
         // lease IDs and therefore go to the target only (the same numbers would hit
         // unrelated leases on another subscription).
-        let sub = if matches!(*kind, "Ack" | "Modify" | "DeleteSub") || rng.chance(5, 6) { target.clone() } else { rng.pick(&subs).clone() };
+        let sub = if matches!(*kind, "Ack" | "Modify" | "DeleteSub" | "DeleteSubAbandoned") || rng.chance(5, 6) { target.clone() } else { rng.pick(&subs).clone() };
         let t2 = t.clone();
         let ids = lease_ids.clone();
         let secs = *rng.pick(&[0, 15, 600]);
@@ -133,8 +138,21 @@ async fn episode(p: &EpParams, mt: bool) -> EpReport {
         kinds.push(kind);
         let new_sub = sub_name(1, 9);
         let start_vt = w.vt();
+        let abandon_after = rng.below(4);
         let h = tokio::spawn(async move {
             match kind {
+                "DeleteSubAbandoned" => {
+                    let c2 = cx.clone();
+                    let s2 = sub.clone();
+                    let call = tokio::spawn(async move {
+                        let _ = c2.delete_sub(&s2).await;
+                    });
+                    for _ in 0..abandon_after {
+                        tokio::task::yield_now().await;
+                    }
+                    call.abort();
+                    let _ = call.await;
+                }
                 "Ack" => {
                     let _ = cx.ack(&sub, &ids).await;
                 }
@@ -272,6 +290,14 @@ async fn episode(p: &EpParams, mt: bool) -> EpReport {
                 let s = s.clone();
                 v.push(("probe-GetSub", tokio::spawn(async move {
                     let _ = cx.get_sub(&s).await;
+                })));
+            }
+            // a (possibly repeated) delete of the target is answered, whatever happened to earlier deletes
+            {
+                let cx = cx.clone();
+                let s = target.clone();
+                v.push(("probe-DeleteSub", tokio::spawn(async move {
+                    let _ = cx.delete_sub(&s).await;
                 })));
             }
             v
